@@ -52,6 +52,9 @@ pub(crate) async fn validate_bands(
             monitor.error(err);
             continue 'band;
         };
+        if let Err(err) = validate_hunk_numbers(&band).await {
+            monitor.error(err);
+        }
         let st = match archive
             .open_stored_tree(BandSelectionPolicy::Specified(*band_id))
             .await
@@ -72,6 +75,29 @@ pub(crate) async fn validate_bands(
         merge_block_lens(&mut block_lens, &band_block_lens);
     }
     Ok(block_lens)
+}
+
+/// Check that no index hunk is missing: hunks are numbered consecutively from zero, and a
+/// complete band holds as many as its tail says.
+async fn validate_hunk_numbers(band: &Band) -> Result<()> {
+    let band_id = band.id();
+    let hunks = band.index().hunks_available().await?;
+    if let Some(missing) = (0u32..).zip(&hunks).find(|(i, h)| i != *h).map(|(i, _)| i) {
+        return Err(Error::InvalidMetadata {
+            details: format!("Index hunk {missing} of band {band_id} is missing"),
+        });
+    }
+    if let Some(expected) = band.get_info().await?.index_hunk_count {
+        if expected != hunks.len() as u64 {
+            return Err(Error::InvalidMetadata {
+                details: format!(
+                    "Band {band_id} should have {expected} index hunks but {} are present",
+                    hunks.len()
+                ),
+            });
+        }
+    }
+    Ok(())
 }
 
 fn merge_block_lens(into: &mut HashMap<BlockHash, u64>, from: &HashMap<BlockHash, u64>) {
